@@ -14,7 +14,7 @@ cleanup() { git -C /repo worktree remove --force "$wt" >/dev/null 2>&1; rm -rf "
 trap cleanup EXIT
 if ! git -C "$wt" apply "$patch"; then echo "PATCH-DOES-NOT-APPLY $patch"; exit 2; fi
 if ! (cd "$wt" && go build ./... ) >/dev/null 2>&1; then echo "PATCH-DOES-NOT-BUILD $patch"; exit 2; fi
-cp /verif/known_findings.json "$ev"/ 2>/dev/null
+
 for id in "$@"; do
   out=$(VERIF_REPO="$wt" VERIF_DIR="$ev" /verif/bin/verifcheck "$id" quick 2>&1)
   rc=$?
